@@ -130,8 +130,8 @@ func main() {
 	}
 }
 
-var commands = map[string]func(n int, f []string){
-	"isa":   isaCase,
-	"bytes": bytesCase,
-}
+// commands are registered by the init() functions of the per-component files
+var commands = map[string]func(n int, f []string){}
+
+// commands whose cases may kill the process: output is flushed after each case
 var commandsFlushEach = map[string]bool{}
